@@ -29,13 +29,15 @@ RULE = ('store cases: a forest of real pulse templates of all 14 classes (random
         'replaced by a semantic fingerprint), and for every stored root what a FRESH PulseStorage loads: ==, interface, '
         'duration, rendered program + measurement windows for 2 parameter assignments, identity sharing. '
         'doc cases: valid documents with optional keys dropped / defaults spelled differently, loaded and re-stored. '
+        'pinned cases: documents written by the pinned code (corpus) must load to the template recorded then. '
+        'Per root also parameter_names / measurement_names / defined_channels against the interface model. '
         'Non-trivial = at least one named sub-template below a root, or a doc case that changes the document.')
 TRUSTED = [
     'Coq 8.16.1 kernel + vm_compute',
     'text level is an oracle: json.dumps/json.loads, sympy printing/parsing of expression strings, repr(float) round trip '
     '(expression strings are compared by a semantic fingerprint: exact evaluation on 4 rational environments)',
     'harness: introspection of the real template objects through their public properties (not through '
-    'get_serialization_data), document canonicalisation, Gallina printers',
+    'get_serialization_data), document canonicalisation, Gallina printers, table of free symbols per expression (sympy)',
     'behavioural equality of original and loaded pulse is observed on the implementation (render at sample rate 1, '
     'measurement windows) for 2 parameter assignments, not proved from a semantics of templates',
 ]
@@ -794,17 +796,24 @@ def search_failing(ctx, broken):
 MANIFEST = {
     'level_text': 'Proof over a Coq model of get_serialization_data / constructor argument handling of all 14 template '
                   'classes and of the PulseStorage store/load protocol (json documents as trees, unbounded nesting): decoder '
-                  'inverts encoder for every class (C10_roundtrip_node), a fresh storage over a backend holding the named '
-                  'nodes\' documents loads the template back and terminates (C10_storage_partial), loaded identifiers are '
-                  'served from the cache afterwards (C10_sharing_partial), stored documents never embed a named template '
-                  '(C10_documents); two refutation theorems for the known findings. Tied to /repo by an exact '
-                  'correspondence check on real template forests over the dict, directory and zip backends.',
-    'level_note': 'Partial: (1) text level (json.dumps/loads, sympy printing/parsing, float repr) is an oracle; (2) that '
-                  '`store` puts every named node\'s document into the backend is tested by the correspondence, not proved '
-                  '(C10_storage_statement open); (3) in-tree identity sharing is observed on the implementation '
-                  '(C10_sharing_statement open); (4) equal behaviour (sampled program, windows) of loaded vs original is '
-                  'observed for 2 parameter assignments, not derived from a template semantics. Guards: string dict keys '
-                  '(finding int_channel_key), one identifier per object (finding dup_identifier_in_transaction).',
-    'technique': 'Coq proof (structural induction on nested template trees, cache invariant for load) + correspondence check',
+                  'inverts encoder for every class (C10_roundtrip_node); one store from any storage state over any backend '
+                  'puts exactly the documents of all named nodes into the backend and touches nothing else '
+                  '(C10_store_step); store then load through a fresh storage returns an equal template, also at the end of '
+                  'any history of stores through two storage instances on a pre-existing backend (C10_storage, '
+                  'C10_storage_history); object identities are allocated in the loader model and one identifier is one '
+                  'object in everything a storage has loaded (C10_sharing, C10_sharing_general); parameter names, '
+                  'measurement names and defined channels are model functions of all classes and equal for templates equal '
+                  'up to identity (C10_interface_erase, C10_storage_interface); stored documents never embed a named '
+                  'template (C10_documents); two refutation theorems for the known findings. Tied to /repo by an exact '
+                  'correspondence check on real template forests over the dict, directory and zip backends (documents, '
+                  'store outcomes, loads, interface sets) and by a corpus of pinned documents that must keep loading.',
+    'level_note': 'Partial: (1) text level (json.dumps/loads, sympy printing/parsing incl. the free-symbol table used by '
+                  'the interface model, float repr) is an oracle; (2) equal duration and equal behaviour (sampled program, '
+                  'windows) of loaded vs original are observed for 2 parameter assignments, not derived from a template '
+                  'semantics; (3) the history theorem assumes every stored tree free of identifier clashes. Guards: string '
+                  'dict keys (finding int_channel_key), one identifier per object (finding '
+                  'dup_identifier_in_transaction).',
+    'technique': 'Coq proof (structural induction on nested template trees, transaction invariant for store, cache-closure '
+                 'invariant for load) + correspondence check + pinned-document corpus',
     'design_ref': 'DESIGN.md §5 C10',
 }
